@@ -274,6 +274,10 @@ initialised again with `params`; what it answers now must be exactly what a fres
 def handle : Handler := fun op args impl =>
   match op, args with
   | "c18re", [model, _, params, s, t] => handleCore "c18" [model, params, s, t] impl
+  | "c18seq", [_, _, _] =>
+    -- P(t) is a function of the model and of t: a Pij object that served other lengths before answers like a fresh one
+    if impl.startsWith "err" then some ⟨impl, "na"⟩ else
+    some ⟨"same", if impl == "same" then "pass" else "fail:transition-matrix-depends-on-earlier-lengths"⟩
   | _, _ => handleCore op args impl
 
 end Gv.Oracle.Models
